@@ -26,6 +26,7 @@ def case(draw, tier):
     nc = len(desc['t'][0])
     tg = draw(gt.tags(nc, oriented=True, maxnames=3, names=draw(st.booleans()), empty_boundaries=True))
     return dict(mesh=desc, tags=tg, fmt=fmt, pdata=draw(st.booleans()), cdata=draw(st.booleans()),
+                encode_pd=draw(st.integers(0, 3)) == 0,
                 seed=draw(st.integers(0, 10**6)))
 
 
@@ -49,9 +50,13 @@ def mesh_hash(m):
 
 
 def ori_map(v):
+    """facet -> sorted tuple of the orientation flags it is listed with (a facet may be listed from both sides)"""
     idx = np.asarray(v).astype(np.int64)
     ori = np.asarray(v.ori).astype(np.int64) if hasattr(v, 'ori') else np.zeros(len(idx), dtype=np.int64)
-    return {int(f): int(o) for f, o in zip(idx.tolist(), ori.tolist())}
+    out = {}
+    for f, o in zip(idx.tolist(), ori.tolist()):
+        out.setdefault(int(f), []).append(int(o))
+    return {f: tuple(sorted(o)) for f, o in out.items()}
 
 
 def body(c, ctx):
@@ -82,11 +87,16 @@ def body(c, ctx):
     out = ['point_data', 'cell_data']
     cls = type(m)
     with tempfile.TemporaryDirectory(prefix='vf-c17-') as td:
+        # optional keyword: the tags additionally encoded in point data (first-order meshes)
+        ekw = dict(encode_point_data=True) if c.get('encode_pd') and desc['cls'].endswith('1') else {}
+        if ekw:
+            ctx.cls('encode_point_data')
         if fmt == 'meshio':
-            mio = to_meshio(m, point_data=pd, cell_data=cd)
+            mio = to_meshio(m, point_data=pd, cell_data=cd, **ekw)
             m2 = from_meshio(mio, out=out)
         elif fmt in FILE_FORMATS:
             suffix, kw = FILE_FORMATS[fmt]
+            kw = dict(kw, **ekw)
             fn = os.path.join(td, 'mesh' + suffix)
             m.save(fn, point_data=pd, cell_data=cd, **kw)
             m2 = skfem.Mesh.load(fn, out=out)
